@@ -27,9 +27,9 @@
 //!     table entry, so its entries are within (M(K+1)+1000M+1)·2^-53 < 1e-11 (M <= 64) relative of
 //!     the exact-arithmetic table; the oracle's sums are within 1e-13 relative: `REL = 1e-9`;
 //!   * `Background::new` only guarantees that the *f32* sum of the frequencies is 1.0, so the exact
-//!     total mass is (Σ bg)^M = 1 ± δ with δ <= M·K·2^-24; the clip `min(1.0)` and the clamp `1.0`
-//!     are off by at most that: `delta = |(Σ bg)^M - 1|` is added to the margin (0 for dyadic
-//!     backgrounds such as the uniform one).
+//!     total mass is (Σ bg)^M = 1 ± δ with δ <= M·K·2^-24; the clip `min(1.0)` lowers an entry by
+//!     at most that: `delta = |(Σ bg)^M - 1|` is added to the margin of the lower bound when the
+//!     p-value is the clipped value 1.0, and nowhere else.
 use crate::out::*;
 use crate::rng::Rng;
 use crate::Cfg;
@@ -384,10 +384,11 @@ fn oracle(case: &Case, o: &Obs, stats: &mut Vec<&'static str>) -> Result<(), Str
                 };
                 let lo = t.tail(sx, steps, o.sfac as i128);
                 let hi = t.tail(sx, -steps, o.sfac as i128);
-                if lo > p * (1.0 + REL) + t.delta {
+                // `min(1.0)` may have clipped an entry whose exact value is (Σ bg)^M = 1 + δ
+                if lo > p * (1.0 + REL) + (if *p >= 1.0 { t.delta } else { 0.0 }) {
                     return Err(format!("pvalue({:e}) = {:e} below the exact P(S >= s+d) = {:e} (d = {}/{} )", s, p, lo, steps, o.sfac));
                 }
-                if *p > hi * (1.0 + REL) + t.delta {
+                if *p > hi * (1.0 + REL) {
                     return Err(format!("pvalue({:e}) = {:e} above the exact P(S >= s-d) = {:e} (d = {}/{})", s, p, hi, steps, o.sfac));
                 }
             }
